@@ -28,6 +28,7 @@ type Ctx struct {
 	transparentCache map[*ssa.Function]bool
 	structFam        map[*ssa.Function]bool
 	rolesResolved    bool
+	aliases          map[string]string
 }
 
 func NewCtx(p *core.Prog, r *core.Report, graph, tier string) *Ctx {
